@@ -7,7 +7,24 @@ SEQ_NOTE = ("Trusted base: go/ssa lowering (x/tools v0.50.0), this repository's 
             "of every counterexample and by the mutation runs recorded in DESIGN.md), the SMT solvers (z3 5.1; cross-checked), "
             "and the models/stubs listed in the evidence file. Claims hold within the stated bounds only.")
 
+BMC_NOTE = ("Trusted base: go/ssa lowering (x/tools v0.50.0); this repository's SSA interpreter and automaton extraction; the MODEL of the Go runtime (channels, select, close, context cancellation, WaitGroup, timers on a virtual clock) written from the documented semantics - checked against the real runtime only through native replay of counterexamples/witnesses under testing/synctest; the partial-order constraint (argued sound in DESIGN.md 4.4, can be switched off with VERIF_PARAMS=nopor=1); the SMT solver (z3 5.1). Claims hold for the stated bounded configurations only; generators are checked for runs of up to K steps.")
+
 checks = {
+ "C05": dict(level="model_checking",
+   text="Bounded model checking of the real stage goroutines (extracted from go/ssa): the schedule, the inputs, the stage functions (uninterpreted) and Take's n are solver variables; every complete run of each bounded configuration (capacity 0..2, input length 0..3, producer goroutine or pre-filled Seq) is covered because K is raised to the completeness threshold. Consumers assert the j-th value against the list image; Final asserts counts, closure, goroutine exit.",
+   technique="SSA-to-automata extraction + SMT-based bounded model checking with symbolic schedule (z3)", ref="DESIGN.md §4, §5 C05", note=BMC_NOTE),
+ "C06": dict(level="model_checking",
+   text="Bounded model checking of every stage under a maximally permissive environment (early close, consumers that stop, cancel at any step, all as solver choices): no panic, prefix property, and at every quiescent state closure + goroutine exit after drain or after cancel. Bounds: capacity 0..1, 1..2 inputs; generators and clocked stages for runs of up to K steps.",
+   technique="SSA-to-automata extraction + SMT-based bounded model checking with symbolic schedule (z3)", ref="DESIGN.md §4, §5 C06", note=BMC_NOTE),
+ "C08": dict(level="model_checking",
+   text="Bounded model checking of pipe.New's pump goroutine with its linked queue in bounded arenas (symbolic slot indices): FIFO/exactly-once, nothing invented, sender never blocks while the context is live (receiver present or absent), completed sends survive cancel, sender-side close is a clean end of stream. Bounds: capacity 0..2, 1..2 sends (3 thorough).",
+   technique="SSA-to-automata extraction + SMT-based bounded model checking with symbolic schedule and arena-allocated heap (z3)", ref="DESIGN.md §4, §5 C08", note=BMC_NOTE),
+ "C11": dict(level="model_checking",
+   text="Bounded model checking of Unfold and Emit with a virtual clock that is a solver variable (lax: ticks of any size at any step; urgent: time moves only when nothing else can): exact successive sequence, index/Try skipping, at most one application per elapsed tick, j-th value not before (j+1) ticks, exactly at (j+1) ticks for a consumer that keeps up, stop and close after cancel. All runs of up to K steps.",
+   technique="SSA-to-automata extraction + SMT-based bounded model checking with symbolic schedule and symbolic time (z3)", ref="DESIGN.md §4.5, §5 C11", note=BMC_NOTE),
+ "C16": dict(level="other",
+   text="Symbolic execution (concrete structure, forked opcode programs) of duct's combinators: every well-typed program of up to 5 steps (7 thorough) over a ladder of element types is built with the real generic functions and visited by a recording visitor; the trace is compared with a specification interpreter that keeps an explicit stack of open contexts; second harness: the visitor fails at every callback position. Everything is concrete, so assertions are decided by evaluation of the real code in the interpreter (no solver query is needed): this is exhaustive enumeration of programs within the bound through the SSA interpreter, the weakest use of the technique in this suite.",
+   technique="symbolic execution of go/ssa with forked program shapes (assertions decided by term normalisation)", ref="DESIGN.md §5 C16"),
  "C01": dict(level="other",
    text="Bounded symbolic execution of hseq.New/unfold + optics.NewLens/NewReflector/ForProduct1..9/ForSpectrum1..9 (real code incl. the unsafe pointer arithmetic, interpreted by a byte-offset memory model over go/types gc/amd64 layouts) on a corpus of 5 struct shapes plus a nine-type struct for the arities: every focusable field, by name and by type, Lens and Reflector; struct content between guard words and put values fully symbolic; Get/Put compared leaf by leaf with ordinary selectors (GetPut, PutGet, PutPut, same pointer). Shapes are a fixed corpus; values are universally quantified (mostly decided by term identity, see evidence).",
    technique="symbolic execution of go/ssa with reflect/unsafe memory model + SMT",
